@@ -110,3 +110,29 @@ theorem parseClone_ok (a : CloneArgs) (p : CloneParsed) (h : parseClone a = .ok 
     | (cases h)
 
 end Bita.Proofs
+
+namespace Bita.Proofs
+open Bita Bita.Options
+
+/-- The input path handed on is the `-i` value (the empty path stands for stdin). -/
+theorem parseCompress_input (a : CompressArgs) (p : CompressParsed) (h : parseCompress a = .ok p) :
+    p.cmd.input = a.input.getD "" := by
+  unfold parseCompress at h
+  obtain ⟨_, _, h⟩ := Parsed.bind_ok _ _ _ h
+  obtain ⟨_, _, h⟩ := Parsed.bind_ok _ _ _ h
+  obtain ⟨_, _, h⟩ := Parsed.bind_ok _ _ _ h
+  obtain ⟨_, _, h⟩ := Parsed.bind_ok _ _ _ h
+  obtain ⟨_, _, h⟩ := Parsed.bind_ok _ _ _ h
+  obtain ⟨_, _, h⟩ := Parsed.bind_ok _ _ _ h
+  obtain ⟨_, _, h⟩ := Parsed.bind_ok _ _ _ h
+  obtain ⟨_, _, h⟩ := Parsed.bind_ok _ _ _ h
+  obtain ⟨_, _, h⟩ := Parsed.bind_ok _ _ _ h
+  obtain ⟨_, _, h⟩ := Parsed.bind_ok _ _ _ h
+  split at h
+  · cases h
+  · obtain ⟨_, _, h⟩ := Parsed.bind_ok _ _ _ h
+    obtain ⟨_, _, h⟩ := Parsed.bind_ok _ _ _ h
+    cases h
+    rfl
+
+end Bita.Proofs
